@@ -3,7 +3,9 @@ from . import conf
 from ..common import hx
 from .gens import blocks_for
 NAMES = ["Aes128", "Aes192", "Aes256", "Aes128Enc", "Aes192Enc", "Aes256Enc", "Aes128Dec", "Aes192Dec", "Aes256Dec"]
-RULE = ("enc/dec lines and multi-block batches for the 9 AES types under AES-NI, detection forced off (soft arm of the "
+# the ARMv8 Cryptography Extensions backend: /repo/aes/src/armv8*.rs compiled into the harness over software intrinsics (DESIGN §4.4)
+NAMES += ["Armv8" + n for n in NAMES]
+RULE = ("enc/dec lines and multi-block batches for the 9 AES types (and the 9 types of the ARMv8 backend, whose source text is executed over software intrinsics) under AES-NI, detection forced off (soft arm of the "
         "autodetect wrappers), aes_force_soft, aes_compact and both, compared with the FIPS-197 Lean specification")
 
 
@@ -23,4 +25,4 @@ def run(chk, tier):
                 chk.case((e["name"], "batch", hx(k), i))
     chk.run_family(["default", "cpuoff", "forcesoft", "compact", "softcompact"], ops)
     conf.require_models(chk, NAMES)
-    chk.assumptions.append("ARMv8 and fixslice32 code paths cannot be built natively on this x86-64 host (DESIGN §4.4)")
+    chk.assumptions.append("the ARMv8 backend is executed over software intrinsics written from the Arm ARM pseudo-code (harness/src/arm_sw.rs); the instruction semantics themselves cannot be checked against hardware here (DESIGN §4.4); fixslice32 is executed via #[path] inclusion")
